@@ -130,6 +130,10 @@ pub fn take_marks() -> u128 {
     MARKS.with(|m| m.replace(0))
 }
 
+pub fn or_marks(m: u128) {
+    MARKS.with(|c| c.set(c.get() | m));
+}
+
 pub fn flush_thread_stats() {
     LOCAL_HITS.with(|h| {
         for (i, c) in h.iter().enumerate() {
